@@ -19,11 +19,12 @@ Definition IF : B.forwardMap_iface := B.mk_forwardMap_iface (list (Z * Z))
   (fun m k v => (hput k v m, tt))          (* Put(key, value) *)
   (fun m k => (hdel k m, tt))              (* Remove(key) *)
   (fun m => zlen m)                        (* Size() *)
+  (fun m => (map fst m, false))            (* ToJSON(): placeholder codec *)
   (fun m => map snd m)                     (* Values() *)
   [].                                      (* hashmap.New() *)
 Definition II : B.inverseMap_iface := B.mk_inverseMap_iface (list (Z * Z))
   (fun _ => ([], tt)) (fun m => zlen m =? 0) (fun m k => opt_pair (hget k m)) (fun m => map fst m)
-  (fun m k v => (hput k v m, tt)) (fun m k => (hdel k m, tt)) (fun m => zlen m) (fun m => map snd m) [].
+  (fun m k v => (hput k v m, tt)) (fun m k => (hdel k m, tt)) (fun m => zlen m) (fun m => (map fst m, false)) (fun m => map snd m) [].
 
 Notation st g := (StHBidi (B.forwardMap IF II g) (B.inverseMap IF II g)).
 
@@ -31,7 +32,7 @@ Module Names.
 Import Coq.Strings.String.
 (* OBLIGATION *)
 Theorem translated_functions :
-  B.translated = ["Clear"; "Empty"; "Get"; "GetKey"; "Keys"; "New"; "Put"; "Remove"; "Size"; "Values"]%string
+  B.translated = ["Clear"; "Empty"; "FromJSON"; "Get"; "GetKey"; "Keys"; "MarshalJSON"; "New"; "Put"; "Remove"; "Size"; "ToJSON"; "UnmarshalJSON"; "Values"]%string
   /\ B.skipped = ["String"]%string /\ B.not_selected = [].
 Proof. repeat split. Qed.
 Print Assumptions translated_functions.
